@@ -2,6 +2,9 @@ package main
 
 func dispatchMore(mode string, lines []string) bool {
 	switch mode {
+	case "parse":
+		runParse(lines)
+		return true
 	case "read":
 		runRead(lines)
 		return true
